@@ -1,11 +1,222 @@
-use arc_swap::verif::{set_hooks, Event};
-use arc_swap::ArcSwap;
-use std::sync::Arc;
-fn b(e: &Event) -> bool { println!("{}:{}:{} {:?} {:?}", e.file, e.line, e.col, e.op, e.ord); false }
+//! Correspondence / oracle harness for arc-swap (real crate, `--cfg arc_swap_verif`).
+mod conc;
+mod prog;
+mod rng;
+mod sched;
+mod varc;
+
+use std::collections::HashMap;
+use std::io::Write;
+
+use arc_swap::strategy::DefaultStrategy;
+#[allow(deprecated)]
+use arc_swap::strategy::test_strategies::FillFastSlots;
+
+use conc::{Outcome, Policy, RunCfg};
+use prog::{GenCfg, Program};
+use rng::Rng;
+
+fn family(name: &str) -> GenCfg {
+    // weights: load, loadfull, dropg, ginto, store, swap, cas, rcu, gderef
+    let base = GenCfg {
+        threads: (2, 3),
+        containers: 1,
+        ops: (3, 7),
+        w: [6, 3, 4, 2, 5, 3, 2, 1, 2],
+        hold: vec![0],
+        strategy: 0,
+        with_null: true,
+        drop_containers: false,
+        setgen: None,
+    };
+    match name {
+        "mixed" => base,
+        "uaf" => GenCfg { threads: (2, 4), containers: 2, hold: vec![0, 0, 7, 8, 9], ..base },
+        "count" => GenCfg { threads: (2, 3), containers: 2, w: [5, 3, 5, 4, 4, 3, 3, 2, 1], drop_containers: true, ..base },
+        "lin" => GenCfg { threads: (3, 4), w: [8, 4, 4, 1, 5, 3, 1, 1, 1], hold: vec![0, 0, 8], with_null: false, ..base },
+        "writes" => GenCfg { threads: (3, 4), w: [2, 1, 2, 0, 5, 6, 3, 3, 0], with_null: false, ..base },
+        "cas" => GenCfg { threads: (2, 3), w: [3, 1, 2, 1, 2, 2, 10, 1, 1], ops: (3, 6), ..base },
+        "rcu" => GenCfg { threads: (2, 4), w: [2, 1, 2, 0, 2, 2, 2, 8, 0], ops: (2, 4), with_null: false, ..base },
+        "guards" => GenCfg { threads: (2, 3), w: [8, 1, 5, 3, 4, 1, 0, 0, 6], hold: vec![0, 3, 7, 8, 9, 10], drop_containers: true, ..base },
+        "iso" => GenCfg { threads: (2, 4), containers: 3, hold: vec![0, 8, 8, 9], w: [6, 3, 4, 2, 6, 3, 2, 1, 1], ..base },
+        "nofast" => GenCfg { strategy: 1, ..base },
+        "wrap" => GenCfg { threads: (1, 3), hold: vec![8, 8, 9, 0], setgen: Some(0), ops: (2, 6), ..base },
+        "steps" => GenCfg { threads: (2, 3), w: [8, 6, 3, 1, 6, 3, 1, 1, 0], hold: vec![0, 4, 7, 8, 12], ..base },
+        "churn" => GenCfg { threads: (3, 5), ops: (1, 3), hold: vec![0, 0, 8], ..base },
+        other => panic!("unknown family {}", other),
+    }
+}
+
+fn run_one(p: &Program, policy: Policy, cfg: &RunCfg) -> Outcome {
+    match p.strategy {
+        0 => conc::run::<DefaultStrategy>(p, policy, cfg),
+        #[allow(deprecated)]
+        1 => conc::run::<FillFastSlots>(p, policy, cfg),
+        _ => panic!("strategy not supported by the concurrent engine"),
+    }
+}
+
+fn write_exec(out: &mut impl Write, idx: usize, seed: u64, p: &Program, o: &Outcome) {
+    writeln!(out, "exec {} seed={}", idx, seed).unwrap();
+    write!(out, "{}", p.text()).unwrap();
+    writeln!(
+        out,
+        "sched {}",
+        o.taken.iter().map(|(t, s)| format!("{}{}", t, if *s { "!" } else { "" })).collect::<Vec<_>>().join(" ")
+    )
+    .unwrap();
+    writeln!(out, "trace").unwrap();
+    for l in &o.trace {
+        writeln!(out, "{}", l).unwrap();
+    }
+    writeln!(out, "endtrace").unwrap();
+    for v in &o.violations {
+        writeln!(out, "violation {}", v).unwrap();
+    }
+    writeln!(out, "endexec").unwrap();
+}
+
+fn parse_execs(text: &str) -> Vec<(usize, u64, Program, Vec<(usize, bool)>)> {
+    let mut out = vec![];
+    let mut cur: Option<(usize, u64, Vec<String>, Vec<(usize, bool)>)> = None;
+    let mut in_trace = false;
+    for l in text.lines() {
+        if let Some(r) = l.strip_prefix("exec ") {
+            let mut it = r.split_whitespace();
+            let idx = it.next().unwrap().parse().unwrap();
+            let seed = it.next().and_then(|s| s.strip_prefix("seed=")).and_then(|s| s.parse().ok()).unwrap_or(0);
+            cur = Some((idx, seed, vec![], vec![]));
+            in_trace = false;
+        } else if l == "trace" {
+            in_trace = true;
+        } else if l == "endtrace" {
+            in_trace = false;
+        } else if l == "endexec" {
+            if let Some((idx, seed, lines, sched)) = cur.take() {
+                let refs: Vec<&str> = lines.iter().map(|s| s.as_str()).collect();
+                out.push((idx, seed, Program::parse(&refs).expect("program parses"), sched));
+            }
+        } else if in_trace || l.starts_with("violation ") {
+        } else if let Some(r) = l.strip_prefix("sched") {
+            if let Some(c) = cur.as_mut() {
+                c.3 = r
+                    .split_whitespace()
+                    .map(|t| (t.trim_end_matches('!').parse().unwrap(), t.ends_with('!')))
+                    .collect();
+            }
+        } else if let Some(c) = cur.as_mut() {
+            c.2.push(l.to_string());
+        }
+    }
+    out
+}
+
 fn main() {
-    set_hooks(Some(b), None);
-    let a = ArcSwap::from_pointee(1);
-    let g = a.load();
-    a.store(Arc::new(2));
-    drop(g);
+    // panics inside the crate under test are caught per operation and reported as violations
+    std::panic::set_hook(Box::new(|_| {}));
+    let args: Vec<String> = std::env::args().collect();
+    let get = |k: &str| args.iter().position(|a| a == k).and_then(|i| args.get(i + 1)).cloned();
+    let mode = args.get(1).cloned().unwrap_or_default();
+    match mode.as_str() {
+        "conc" => {
+            let sites = get("--sites").expect("--sites <sites.json>");
+            conc::load_sites(&sites);
+            let out_path = get("--out").expect("--out <file>");
+            let mut out = std::io::BufWriter::new(std::fs::File::create(&out_path).unwrap());
+            let cfg = RunCfg {
+                max_steps: get("--max-steps").and_then(|s| s.parse().ok()).unwrap_or(20000),
+                load_bound: get("--load-bound").and_then(|s| s.parse().ok()).unwrap_or(1000),
+            };
+            let mut nviol = 0usize;
+            let mut stats: HashMap<String, u64> = HashMap::new();
+            let mut n_exec = 0usize;
+            let mut total_steps = 0usize;
+            let mut merge = |o: &Outcome, stats: &mut HashMap<String, u64>| {
+                for (k, v) in &o.stats {
+                    let e = stats.entry(k.clone()).or_insert(0);
+                    if k.starts_with("max_") {
+                        *e = (*e).max(*v)
+                    } else {
+                        *e += *v
+                    }
+                }
+            };
+            if let Some(script) = get("--script") {
+                // scenario file: program lines, then `script <t>:<pattern> <t>:<pattern> ...`
+                let text = std::fs::read_to_string(&script).unwrap();
+                let lines: Vec<&str> = text.lines().filter(|l| !l.trim_start().starts_with('#')).collect();
+                let p = Program::parse(&lines).expect("scenario program parses");
+                let sc: Vec<(usize, String)> = lines
+                    .iter()
+                    .filter_map(|l| l.strip_prefix("script "))
+                    .flat_map(|l| l.split_whitespace())
+                    .map(|x| {
+                        let (t, pat) = x.split_once(':').unwrap();
+                        (t.parse().unwrap(), pat.replace('~', " "))
+                    })
+                    .collect();
+                let o = run_one(&p, Policy::Script { script: sc, pos: 0, left: None }, &cfg);
+                nviol += o.violations.len();
+                total_steps += o.taken.len();
+                n_exec += 1;
+                merge(&o, &mut stats);
+                write_exec(&mut out, 0, 0, &p, &o);
+            } else if let Some(replay) = get("--replay") {
+                // re-run recorded executions with their recorded schedules
+                let text = std::fs::read_to_string(&replay).unwrap();
+                let only: Option<usize> = get("--exec").and_then(|s| s.parse().ok());
+                for (idx, seed, p, sched) in parse_execs(&text) {
+                    if only.map(|o| o != idx).unwrap_or(false) {
+                        continue;
+                    }
+                    let o = run_one(&p, Policy::Replay { sched, pos: 0 }, &cfg);
+                    nviol += o.violations.len();
+                    total_steps += o.taken.len();
+                    n_exec += 1;
+                    merge(&o, &mut stats);
+                    write_exec(&mut out, idx, seed, &p, &o);
+                    if o.hung {
+                        break;
+                    }
+                }
+            } else {
+                let seed: u64 = get("--seed").and_then(|s| s.parse().ok()).unwrap_or(1);
+                let count: usize = get("--count").and_then(|s| s.parse().ok()).unwrap_or(10);
+                let fams: Vec<String> = get("--family").unwrap_or_else(|| "mixed".into()).split(',').map(|s| s.to_string()).collect();
+                for idx in 0..count {
+                    let fam = &fams[idx % fams.len()];
+                    let gcfg = family(fam);
+                    let s = seed.wrapping_mul(1_000_003).wrapping_add(idx as u64);
+                    let mut rng = Rng::new(s);
+                    let p = prog::generate(&mut rng, &gcfg);
+                    let stick = [0u64, 30, 60, 85][rng.range(0, 4)];
+                    let o = run_one(&p, Policy::Random { rng: rng.clone(), stick }, &cfg);
+                    nviol += o.violations.len();
+                    total_steps += o.taken.len();
+                    n_exec += 1;
+                    merge(&o, &mut stats);
+                    write_exec(&mut out, idx, s, &p, &o);
+                    if o.hung {
+                        break; // threads may still be spinning: stop the batch here
+                    }
+                }
+            }
+            out.flush().unwrap();
+            let mut keys: Vec<_> = stats.keys().cloned().collect();
+            keys.sort();
+            println!(
+                "{{\"executions\":{},\"steps\":{},\"violations\":{},{}}}",
+                n_exec,
+                total_steps,
+                nviol,
+                keys.iter().map(|k| format!("\"{}\":{}", k, stats[k])).collect::<Vec<_>>().join(",")
+            );
+            // exit status is decided by the caller from the file; hung executions leave threads
+            std::process::exit(0);
+        }
+        _ => {
+            eprintln!("usage: harness conc --sites <sites.json> --out <file> [--family f1,f2] [--seed n] [--count n] [--replay file [--exec k]]");
+            std::process::exit(2);
+        }
+    }
 }
